@@ -3,7 +3,7 @@
 p=$1; r=${2:-1}
 cd /verif
 for n in 1 2; do
-  if [ "$r" = "2" ]; then args="--out /tmp/seed/$p-out2 --as $((n+2))"; elif [ "$r" = "3" ]; then args="--out /tmp/seed/$p-out3 --as $((n+4))"; elif [ "$r" = "4" ]; then args="--out /tmp/seed/$p-out4 --as $((n+6))"; elif [ "$r" = "5" ]; then args="--out /tmp/seed/$p-out5 --as $((n+8))"; elif [ "$r" = "6" ]; then args="--out /tmp/seed/$p-out6 --as $((n+10))"; elif [ "$r" = "7" ]; then args="--out /tmp/seed/$p-out7 --as $((n+12))"; elif [ "$r" = "8" ]; then args="--out /tmp/seed/$p-out8 --as $((n+14))"; elif [ "$r" = "9" ]; then args="--out /tmp/seed/$p-out9 --as $((n+16)) --scratch ${SCRATCH:-/tmp/sw9/w0}"; elif [ "$r" = "10" ]; then args="--out /tmp/seed/$p-out10 --as $((n+18)) --scratch ${SCRATCH:-/tmp/sw9/w0}"; else args=""; fi
+  if [ "$r" = "2" ]; then args="--out /tmp/seed/$p-out2 --as $((n+2))"; elif [ "$r" = "3" ]; then args="--out /tmp/seed/$p-out3 --as $((n+4))"; elif [ "$r" = "4" ]; then args="--out /tmp/seed/$p-out4 --as $((n+6))"; elif [ "$r" = "5" ]; then args="--out /tmp/seed/$p-out5 --as $((n+8))"; elif [ "$r" = "6" ]; then args="--out /tmp/seed/$p-out6 --as $((n+10))"; elif [ "$r" = "7" ]; then args="--out /tmp/seed/$p-out7 --as $((n+12))"; elif [ "$r" = "8" ]; then args="--out /tmp/seed/$p-out8 --as $((n+14))"; elif [ "$r" = "9" ]; then args="--out /tmp/seed/$p-out9 --as $((n+16)) --scratch ${SCRATCH:-/tmp/sw9/w0}"; elif [ "$r" = "10" ]; then args="--out /tmp/seed/$p-out10 --as $((n+18)) --scratch ${SCRATCH:-/tmp/sw9/w0}"; elif [ "$r" = "11" ]; then args="--out /tmp/seed/$p-out11 --as $((n+20)) --scratch ${SCRATCH:-/tmp/sw9/w0}"; else args=""; fi
   ./seedtest.py $p $n $args 2>&1 | python3 -c "
 import sys,json
 t=sys.stdin.read()
